@@ -25,6 +25,15 @@ func genC03(r *Rnd, t Tier) *Case {
 	case 3:
 		p.RateThr = uint(pick(r, 1, 20, 33, 50, 51, 67, 100))
 		p.ExecThr = uint(r.Range(1, 8))
+		switch r.Intn(3) {
+		case 0:
+			p.RateThr = uint(r.Range(1, 100))
+		case 1:
+			// a threshold that some number of failures among ExecThr executions reaches exactly (after rounding)
+			p.ExecThr = uint(pick(r, 2, 3, 4, 6, 7, 8, 8))
+			k := r.Range(1, int(p.ExecThr))
+			p.RateThr = uint(rate(k, int(p.ExecThr)))
+		}
 		p.Period = time.Duration(r.Range(1, 20)) * 10 * unit
 	}
 	if r.P(0.5) {
